@@ -29,6 +29,7 @@ func applyExclusions(qc *g7lib.QCfg) {
 	qc.NoNullArith = true       // (guard, not a finding) NULL literal arithmetic is typed DOUBLE
 	qc.NoOnNullableInner = true // inner-join-on-nullable-side-conjunct-lost (F17)
 	qc.NoInnerAfterOuter = true // join-after-outer-join-filter-misplaced (F17 family)
+	qc.NoRangeJoinOn = true     // range-heap-join-drops-where-filter
 }
 
 // schemaExclusions switches on the schema generator's exclusions.
@@ -96,26 +97,40 @@ func classify(q *g7lib.Query, d *g7lib.Diff, w *witness, ev *g7lib.Evaluator, en
 		q0 := *q
 		q0.Offset, q0.Limit = -1, -1
 		if full, err := ev.Query(&q0); err == nil {
-			want := len(full) - q.Offset
-			if want < 0 {
-				want = 0
-			}
-			if want > q.Limit {
-				want = q.Limit
-			}
-			cnt := map[string]int{}
-			for _, k := range g7lib.RowKeys(full) {
-				cnt[k]++
-			}
-			ok := len(d.Extra) == want
-			for _, k := range d.Extra { // Extra = engine sequence in this mode
-				if cnt[k] == 0 {
-					ok = false
+			try := func(keys []string) bool {
+				want := len(keys) - q.Offset
+				if want < 0 {
+					want = 0
 				}
-				cnt[k]--
+				if want > q.Limit {
+					want = q.Limit
+				}
+				cnt := map[string]int{}
+				for _, k := range keys {
+					cnt[k]++
+				}
+				ok := len(d.Extra) == want
+				for _, k := range d.Extra { // Extra = engine sequence in this mode
+					if cnt[k] == 0 {
+						ok = false
+					}
+					cnt[k]--
+				}
+				return ok && g7lib.SortedOnKeys(q, w.rawRows)
 			}
-			if ok && g7lib.SortedOnKeys(q, w.rawRows) {
+			keys := g7lib.RowKeys(full)
+			if try(keys) {
 				return "setop-offset-before-sort"
+			}
+			if q.SetOp == "EXCEPT" && q.Width() == 1 {
+				for i, k := range keys {
+					if k == "''" {
+						if try(append(append([]string{}, keys[:i]...), keys[i+1:]...)) {
+							return "except-phantom-empty-row+offset-before-sort"
+						}
+						break
+					}
+				}
 			}
 		}
 	}
